@@ -270,6 +270,8 @@ JudgeSum(t, ev, wt) ==
       rng == IF ev.fvak = "none" THEN <<>> ELSE IF ev.fvak = "frame" THEN ev.frame
              ELSE IF decR THEN [r \in RIdx(M) |-> RangeIn(X, r)] ELSE <<>>
       hasr == ev.fvak # "none"
+      \* a frame given for a subset of the reactions: the range of a reaction without a row is not specified
+      covered(r) == ev.fsub = <<>> \/ ev.fsub[r] = 1
       obs == RowsOf(ev.plus) \cup RowsOf(ev.minus)
       want == IF ev.k = "model" THEN Boundary(M) ELSE {r \in RIdx(M) : M.S[r][ev.idx] # 0}
       exprow(r) == SummaryRow(M, sol, rng, r, IF ev.k = "model" THEN MetOf(M, r) ELSE ev.idx)
@@ -288,7 +290,7 @@ JudgeSum(t, ev, wt) ==
        Res("in", known /\ decR,
            IF ev.outcome # "ok" THEN {"outcome"}
            ELSE Fails("flux", known => (ev.fluxk = "num" /\ Near(ev.flux, sol[ev.idx] * Scale, Tol)))
-                \cup Fails("range", (hasr /\ rng # <<>>) => (Near(ev.lo, rng[ev.idx][1] * Scale, Tol) /\ Near(ev.hi, rng[ev.idx][2] * Scale, Tol)))
+                \cup Fails("range", (hasr /\ rng # <<>> /\ covered(ev.idx)) => (Near(ev.lo, rng[ev.idx][1] * Scale, Tol) /\ Near(ev.hi, rng[ev.idx][2] * Scale, Tol)))
                 \cup Fails("renders", ev.rendered),
            tags \cup (IF below THEN {"reaction_flux_below_threshold"} ELSE {}), <<>>)
   ELSE
@@ -315,7 +317,7 @@ JudgeSum(t, ev, wt) ==
                       \cup Fails("side", \A x \in RowsOf(ev.minus) : x.rxn \in want => ~OnPlusSide(exprow(x.rxn)))
                       \cup Fails("flux_times_coefficient", \A x \in obs : x.rxn \in want => Near(x.flux, exprow(x.rxn).flux * Scale, Tol)))
            \cup (IF ~(known /\ hasr /\ rng # <<>>) THEN {}
-                 ELSE Fails("range_scaled", \A x \in obs : x.rxn \in want =>
+                 ELSE Fails("range_scaled", \A x \in obs : (x.rxn \in want /\ covered(x.rxn)) =>
                                (Near(x.lo, exprow(x.rxn).lo * Scale, Tol) /\ Near(x.hi, exprow(x.rxn).hi * Scale, Tol)))),
       tags, <<>>)
 
